@@ -6,6 +6,7 @@ names=${@:-$(ls seeded)}
 bad=0
 for n in $names; do
   d=seeded/$n; [ -f $d/demo.py ] || continue
+  grep -q '"moot_since"' $d/meta.json && continue
   sc=$(mktemp -d -p /var/tmp verif-scratch-XXXX)
   cp -r /repo/rdflib $sc/rdflib; find $sc -name __pycache__ -prune -exec rm -rf {} +
   ( cd $sc && timeout 300 /venv/bin/python /verif/$d/demo.py >$sc/d0 2>&1 ); r0=$?
